@@ -361,6 +361,28 @@ def d4c_verdict_per_element(chk: Check, rid: str = "C01-D4c") -> None:
                    "flag assigned on every path", False)
 
 
+def d4d_verdict_is_a_comparison(chk: Check, rid: str = "C01-D4d") -> None:
+    """rules/inversion.constant_verdicts: inside the element loops of the
+    search handler a constant is assigned to the matched flag only as the
+    reset directly before an inner search loop that can overwrite it."""
+    prog = chk.prog
+    chk.rule(rid, "no arm of an element loop of the search handler decides "
+             "the verdict by a constant (other than the reset before an "
+             "inner search loop)", floor=1)
+    fi = prog.func("Processor._get_nodes_by_search")
+    bad, n = inversion.constant_verdicts(fi)
+    for a in bad:
+        chk.fail(rid, fi, a, "{}: `{}` in an arm of its own".format(
+            fi.short, src(a)),
+            "the arm declares every element it takes \"not matched\" "
+            "without comparing anything (NodeCoords wrappers of a slice, "
+            "sets, ... are leaves to `node_is_leaf`): those elements drop "
+            "out of the plain result and all enter the inverted one")
+    for _ in range(n - len(bad)):
+        chk.ok(rid, fi, fi.node, fi.short + ": reset before a search loop",
+               "constant only as a reset", False)
+
+
 def _iter_calls(fi: FuncInfo, suffix: str) -> List[ast.Call]:
     return [n for n in walk_local(fi.node) if isinstance(n, ast.Call)
             and src(n.func).endswith(suffix)]
@@ -770,7 +792,19 @@ def d6b_guard_completeness(chk: Check) -> None:
             for node, guard, neg in guards_for(fi.node, data, iv):
                 from sa.guards import terminates
                 neg = terminates(node.body) != neg
-                rej, acc, decided = index_guard_table(guard, data, iv, neg)
+                # an index computed from the requested one (normalised
+                # positions): judge the guard for the *requested* index
+                derived = None
+                from sa.coords import reaching_def
+                d = reaching_def(iv, node)
+                if d is not None and not isinstance(d, ast.Call):
+                    srcs = sorted({x.id for x in ast.walk(d)
+                                   if isinstance(x, ast.Name)} -
+                                  {data, iv, "len", "int", "abs"})
+                    if len(srcs) == 1:
+                        derived = (srcs[0], d)
+                rej, acc, decided = index_guard_table(guard, data, iv, neg,
+                                                      derived=derived)
                 text = "{}{}".format("not " if neg else "", src(guard))
                 if not decided:
                     chk.fail("C01-D6b", fi, node, text,
@@ -795,6 +829,7 @@ def run(chk: Check) -> None:
     d3_notation(chk)
     d4_inversion(chk)
     d4c_verdict_per_element(chk)
+    d4d_verdict_is_a_comparison(chk)
     from rules.c08 import d12_quoted_text_is_literal
     d12_quoted_text_is_literal(chk, "C01-D9")
     d5_haystack(chk)
